@@ -39,14 +39,14 @@ def parse(abbr: str, config: Config):
     # may produce multiple nodes
     # 2. Transform every resolved node
     # In case if config contains text, temporary remove it from config
-    if text:
+    if text is not None:
         config.user_config['text'] = None
 
     try:
         snippets(abbr, config)
         walk(abbr, transform, config)
     finally:
-        if text:
+        if text is not None:
             config.user_config['text'] = text
     return abbr
 
